@@ -384,7 +384,9 @@ func checkC03(c *Ctx) {
 			known := true
 			for _, it := range items {
 				var o string
+				ov.outerField = true
 				ov.under(it, func() { o = ov.fieldOrigin(it.v.v, it.v.fr, 0) })
+				ov.outerField = false
 				if o == "" {
 					known = false
 				}
